@@ -1406,47 +1406,87 @@ class SVG:
 
         # Discard useless content
         self.remove_nonsvg_content(inplace=True)
+        if _verif.ENABLED:
+            _verif.emit("step", name="remove_nonsvg_content")
         self.remove_processing_instructions(inplace=True)
+        if _verif.ENABLED:
+            _verif.emit("step", name="remove_processing_instructions")
         self.remove_anonymous_symbols(inplace=True)
+        if _verif.ENABLED:
+            _verif.emit("step", name="remove_anonymous_symbols")
         self.remove_title_meta_desc(inplace=True)
+        if _verif.ENABLED:
+            _verif.emit("step", name="remove_title_meta_desc")
 
         # Simplify things that simplify in isolation
         self.apply_style_attributes(inplace=True)
+        if _verif.ENABLED:
+            _verif.emit("step", name="apply_style_attributes")
         self.resolve_nested_svgs(inplace=True)
+        if _verif.ENABLED:
+            _verif.emit("step", name="resolve_nested_svgs")
         self.shapes_to_paths(inplace=True)
+        if _verif.ENABLED:
+            _verif.emit("step", name="shapes_to_paths")
         self.expand_shorthand(inplace=True)
+        if _verif.ENABLED:
+            _verif.emit("step", name="expand_shorthand")
         self.resolve_use(inplace=True)
+        if _verif.ENABLED:
+            _verif.emit("step", name="resolve_use")
 
         # Simplify things that do not simplify in isolation
         self.simplify(inplace=True)
+        if _verif.ENABLED:
+            _verif.emit("step", name="simplify")
 
         if drop_unsupported:
             # discard now what the final check would discard, so that the groups and
             # gradients this leaves without purpose are tidied up with everything else
             self.checkpicosvg(allow_text=allow_text, drop_unsupported=True)
+            if _verif.ENABLED:
+                _verif.emit("step", name="drop_unsupported")
 
         # Tidy up
         self.evenodd_to_nonzero_winding(inplace=True)
+        if _verif.ENABLED:
+            _verif.emit("step", name="evenodd_to_nonzero_winding")
         self.normalize_opacity(inplace=True)
+        if _verif.ENABLED:
+            _verif.emit("step", name="normalize_opacity")
         self.absolute(inplace=True)
+        if _verif.ENABLED:
+            _verif.emit("step", name="absolute")
         self.round_floats(ndigits, inplace=True)
+        if _verif.ENABLED:
+            _verif.emit("step", name="round_floats")
 
         # https://github.com/googlefonts/picosvg/issues/269 remove empty subpaths *after* rounding
         self.remove_empty_subpaths(inplace=True)
+        if _verif.ENABLED:
+            _verif.emit("step", name="remove_empty_subpaths")
         while True:
             self.remove_unpainted_shapes(inplace=True)
+            if _verif.ENABLED:
+                _verif.emit("step", name="remove_unpainted_shapes")
             # dropping shapes can leave groups that need not (and, by the picosvg rules,
             # must not) be groups any more: fewer than two children or nothing visible
             if not self._dissolve_needless_groups():
                 break
             # a dissolved group pushed its opacity down onto its child
             self.round_floats(ndigits, inplace=True)
+            if _verif.ENABLED:
+                _verif.emit("step", name="dissolved_groups_and_rounded")
         # the shapes just dropped may have been the only users of a gradient
         self._remove_orphaned_gradients()
+        if _verif.ENABLED:
+            _verif.emit("step", name="_remove_orphaned_gradients")
 
         violations = self.checkpicosvg(
             allow_text=allow_text, drop_unsupported=drop_unsupported
         )
+        if _verif.ENABLED:
+            _verif.emit("step", name="checkpicosvg", violations=len(violations))
         if violations:
             raise ValueError("Unable to convert to picosvg: " + ",".join(violations))
 
